@@ -531,11 +531,12 @@ theorem C06_reconnect_never_applies (db : DB) (rpc : Rpc) (rm : Bool) :
   all_goals first | exact ⟨Or.inl rfl, rfl⟩ | exact ⟨Or.inr rfl, rfl⟩
 
 /-- **Every function that (re-)creates the stream to the auctioneer checks the pending batch before it
-(re-)subscribes accounts** – regenerated from `auctioneer/client.go`: the callers of `connectServerStream` are exactly
-`connectAndAuthenticate` (first connect) and `HandleServerShutdown` (stream error / shutdown notice). -/
+(re-)subscribes accounts** – regenerated from `auctioneer/client.go`: whichever functions call
+`connectServerStream` (today `connectAndAuthenticate` for the first connect and `reconnect`, the body of
+`HandleServerShutdown`, for stream errors / shutdown notices – the statement does not depend on their names), each of
+them calls `checkPendingBatch` before it subscribes accounts, and there is at least one such function. -/
 theorem facts_stream_creators_check :
-    streamCreators = [("HandleServerShutdown", "check-before-subscribe"),
-                      ("connectAndAuthenticate", "check-before-subscribe")] := by decide
+    streamCreators ≠ [] ∧ ∀ p ∈ streamCreators, p.2 = "check-before-subscribe" := by decide
 
 /-- a check answered "not finalised" keeps everything -/
 theorem reconnect_notFinalised_keeps (db : DB) (rm : Bool) : (reconnect (.rpcErr true) rm db).1 = db := by
